@@ -1393,7 +1393,7 @@ func (g *Gen) virtualOp() {
 		if g.confChanges < g.p.MaxConfChanges+4 {
 			g.confChanges++
 			g.nextCtx++
-			g.do(Action{K: AVProposeConf, N: anyLeader(), I: g.nextCtx, J: g.rng.IntN(4)})
+			g.do(Action{K: AVProposeConf, N: anyLeader(), I: g.nextCtx, J: g.rng.IntN(7)})
 		}
 	case 8:
 		// the real node's own application maintenance
